@@ -39,7 +39,7 @@ CORE_NOT_COVERED = [
 PROPS["C03"] = dict(
     title="Parser-state combinators are all-or-nothing and match exactly",
     verus_units=[("core", {}, ""), ("core", {"feature.memchr": True}, "memchr")],
-    kani=[], searcher=["prims", "state"],
+    kani=["inmod_c03"], searcher=["prims", "state"],
     design_ref="DESIGN.md section 5, C03",
     technique="contract-based deductive verification (Verus): frame law with closure laws on every ParserState combinator, exact functional contracts on the Position matchers over vstd's UTF-8 theory; real code extracted from /repo each run",
     level_text="Unbounded proof for all call trees built from lawful closures and all inputs: every public ParserState operation is verified against the frame law (input, flags, snapshots below entry depth and earlier tokens untouched) given that its closure arguments obey it; failed sequence / any lookahead restore position, tokens (up to node tags, finding F2) and stack; rule emits exactly one balanced Start/End pair around its body's tokens iff it succeeds outside lookahead/atomic; match_string/insensitive/range/char_by/skip/skip_until_basic have exact iff/advance/stay/boundary postconditions proved from vstd's UTF-8 definitions.",
@@ -90,7 +90,7 @@ PROPS["C15"] = dict(
 PROPS["C10"] = dict(
     title="Line/column arithmetic and error rendering are correct for all text",
     verus_units=[("lines", {}, ""), ("pairs", {}, "")],
-    kani=[], searcher=None,
+    kani=["inmod_c10"], searcher=None,
     design_ref="DESIGN.md section 5, C10",
     technique="contract-based deductive verification (Verus) of the index arithmetic over vstd's UTF-8 theory; bounded Kani harnesses (planned) for the iterator-chain functions",
     level_text="Unbounded proof: LineIndex::new records exactly the offsets after every newline character (loop invariant over chars()); LineIndex::line_col returns (1 + newlines before the offset, 1 + characters since the last newline) for every boundary offset inside the indexed prefix; Span::new / Position::new succeed exactly on ordered boundary offsets; merge_spans; line_of and LinesSpan::next yield exactly the line [ls, le) containing the cursor and advance to the start of the next line - the last two given the assumed contracts of find_line_start / find_line_end.",
@@ -130,4 +130,4 @@ NOT_APPLICABLE = {
 }
 
 # commits in /repo that add guarded hooks (kept current by hand)
-HOOK_COMMITS = []
+HOOK_COMMITS = ["ebb0f85 verif hook: cfg(kani) includes for out-of-tree Kani harnesses (position.rs, parser_state.rs)"]
